@@ -165,3 +165,48 @@ func Payload(n int, seed uint32, compressible bool) []byte {
 	}
 	return p
 }
+
+// DeflateFixed returns a zlib stream holding data in ONE final block coded with the fixed Huffman
+// code, literals only (RFC 1951 3.2.6): 2-byte header, the block, Adler-32.  For tiny inputs this is
+// shorter than anything compress/flate emits (1 byte of data: 9 bytes in all).
+func DeflateFixed(data []byte) []byte {
+	out := []byte{0x78, 0x01}
+	var acc uint32
+	var nbits uint
+	put := func(v uint32, n uint) { // n bits of v, least significant first (header bits)
+		acc |= v << nbits
+		nbits += n
+		for nbits >= 8 {
+			out = append(out, byte(acc))
+			acc >>= 8
+			nbits -= 8
+		}
+	}
+	putCode := func(code uint32, n uint) { // Huffman codes are packed most significant bit first
+		var rev uint32
+		for i := uint(0); i < n; i++ {
+			rev = rev<<1 | (code>>i)&1
+		}
+		put(rev, n)
+	}
+	put(1, 1) // BFINAL
+	put(1, 2) // BTYPE = 01 fixed
+	for _, b := range data {
+		if b < 144 {
+			putCode(0x30+uint32(b), 8)
+		} else {
+			putCode(0x190+uint32(b)-144, 9)
+		}
+	}
+	putCode(0, 7) // end of block (256)
+	if nbits > 0 {
+		out = append(out, byte(acc))
+	}
+	a, bsum := uint32(1), uint32(0)
+	for _, x := range data {
+		a = (a + uint32(x)) % 65521
+		bsum = (bsum + a) % 65521
+	}
+	ad := bsum<<16 | a
+	return append(out, byte(ad>>24), byte(ad>>16), byte(ad>>8), byte(ad))
+}
